@@ -82,6 +82,32 @@ theorem sweepVisible_visible_of_all_farther (T : List EP) (p : PP) (onB : List N
     have h2 : ¬ p.dist = f.adist := ne_of_lt hf
     simp [h1, h2]
 
+/-- The hypothesis `SortedStatus` of the rule theorems holds in the model (and in the C++: `e.sort()` precedes
+    every call of `sweepVisible`): the status list handed to the rule is `sortBy epLt …`, which is sorted by
+    the distance at which the current ray meets the edges — for every status list and every swept-to point. -/
+theorem model_status_sorted (c : Pt) (T : List EP) (t : PP) :
+    SortedStatus (sortBy epLt (T.map (fun e => e.setCurr c t))) :=
+  sortBy_epLt_sorted _
+
+/-- One step of the modelled sweep (`sweepStep`, the loop body of `vertexSweep()`): if the sorted status holds a
+    witness edge for the swept-to shape vertex `t` (as in `sweepVisible_blocked_of_witness`), the step never
+    makes the edge centre–`t` visible (`setDist`): its decision is `addBlocker` or nothing — whatever the
+    valid-region cones say. -/
+theorem sweepStep_not_visible_of_witness (ign invisG : Bool) (c : SV) (onB : List Nat)
+    (st : List EP × List (Nat × Dec)) (t : PP) (hconn : t.v.conn = false)
+    (e : EP) (he : e ∈ sortBy epLt (st.1.map (fun e => e.setCurr c.pt t)))
+    (hne : NonEnd t.v.pt e) (hd : e.adist ≤ t.dist)
+    (hthrough : ∀ f ∈ sortBy epLt (st.1.map (fun e => e.setCurr c.pt t)), NonEnd t.v.pt f → f.adist = t.dist → f.obj1 ∈ onB) :
+    ∃ d : Dec, (sweepStep ign invisG c onB st t).2 = (t.v.idx, d) :: st.2 ∧ d ≠ some true := by
+  have hv := sweepVisible_blocked_of_witness _ t onB hconn (model_status_sorted c.pt st.1 t) e he hne hd hthrough
+  unfold sweepStep
+  simp only [hv]
+  refine ⟨_, rfl, ?_⟩
+  split
+  · split <;> simp
+  · simp only [Bool.false_eq_true, if_false]
+    split <;> simp
+
 /-! ### touching axis-parallel rectangles -/
 
 /-- Spec side: from the middle of a vertical side of the rectangle to any other point of the closed
